@@ -73,6 +73,12 @@ def handle (line : String) : String :=
       let d : Defaults := { Defaults.std with strict := dlvl == "S" }
       showR ((Pe.component T d (unhex hx.toList) (optS name) (optS dt) ec (lvl == "S") none).map (Pe.encComponent T ec))
     | _, _ => "bad-args"
+  | ["FLD", ver, lvl, dlvl, ec, name, hx] =>
+    match tablesFor ver, parseEC ec with
+    | some T, some ec =>
+      let d : Defaults := { Defaults.std with strict := dlvl == "S" }
+      showR (do let f ← Pe.field T d (unhex hx.toList) (optS name) ec (lvl == "S") none false; Pe.encField T ec f)
+    | _, _ => "bad-args"
   | ["SEG", ver, lvl, dlvl, ec, hx] =>
     match tablesFor ver, parseEC ec with
     | some T, some ec =>
